@@ -46,12 +46,19 @@ type c14Case struct {
 	Flags    []string       `json:"flags,omitempty"` // command-layer cases: the flags given on the command line
 	Chart    *vChart        `json:"chart"`
 	Vals     map[string]any `json:"vals"`
+	// round 4 (c14_doc.go): constructed cases carry the verdict the JSON-Schema drafts prescribe
+	Expect  []c14Expect `json:"expect,omitempty"`
+	NoModel bool        `json:"noModel,omitempty"` // the document is outside the Coq model's keyword family
+	Tpl     string      `json:"tpl,omitempty"`
 }
 
 type c14Pair struct {
 	Chart string `json:"chart"`
 	Valid bool   `json:"valid"` // verdict of the real library on the final slice
-	term  string
+	// ok | violation (JSONSchemaValidationError) | schema-error (the schema did not compile) | panic
+	Verdict string `json:"verdict"`
+	term    string // (schema, values, bool) for [valid]
+	dterm   string // (document, values, verdict, in-model) for [doc_verdict]
 }
 
 type c14Obs struct {
@@ -82,7 +89,7 @@ type c14Obs struct {
 
 func (*c14) ID() string { return "C14" }
 func (*c14) CoqImport() string {
-	return "From Helm Require Import Values.Tree Values.Schema Values.Scope Values.Gate Run.RunC14."
+	return "From Helm Require Import Common.Strs Values.Tree Values.Schema2 Values.Schema Values.Scope Values.Gate Run.RunC14."
 }
 func (*c14) Rule() string {
 	return "chart trees (depth <= 3, aliases, conditions/tags that disable subcharts, repeated dependencies) with JSON schemas from the " +
@@ -173,12 +180,19 @@ func (o *c14Obs) reference(c c14Case) {
 	var walk func(x *chart.Chart, d *vChart, slice map[string]any)
 	walk = func(x *chart.Chart, d *vChart, slice map[string]any) {
 		if d.Schema != nil {
-			ok := chartutil.ValidateAgainstSingleSchema(slice, d.Schema.bytes()) == nil
+			verdict := c14Verdict(slice, d.Schema.bytes())
+			ok := verdict == "ok"
 			if !ok {
 				o.Violated = append(o.Violated, x.Name())
 			}
-			o.Pairs = append(o.Pairs, c14Pair{Chart: x.Name(), Valid: ok,
-				term: fmt.Sprintf("(%s, %s, %s)", coqSchema(d.Schema), coqVal(slice), coqBool(ok))})
+			p := c14Pair{Chart: x.Name(), Valid: ok, Verdict: verdict}
+			if d.Schema.IsDoc {
+				p.dterm = fmt.Sprintf("(%s, %s, %s, %s)", coqVal(normJSON(d.Schema.Doc)), coqVal(slice), coqVerdict(verdict),
+					coqBool(!c.NoModel && verdict != "panic"))
+			} else {
+				p.term = fmt.Sprintf("(%s, %s, %s)", coqSchema(d.Schema), coqVal(slice), coqBool(ok))
+			}
+			o.Pairs = append(o.Pairs, p)
 		}
 		for _, k := range x.Dependencies() {
 			sub, _ := slice[k.Name()].(map[string]any)
@@ -245,6 +259,20 @@ func (*c14) Execute(ci any) (res any) {
 			res = obs
 		}
 	}()
+	if c.Op == "schema-step" {
+		// the schema step alone: Helm's ValidateAgainstSingleSchema on (values, schema bytes)
+		verdict := c14Verdict(deepCopyVals(c.Vals), c.Chart.Schema.bytes())
+		obs.RefStage = "ok"
+		p := c14Pair{Chart: c.Chart.Name, Valid: verdict == "ok", Verdict: verdict}
+		p.dterm = fmt.Sprintf("(%s, %s, %s, %s)", coqVal(normJSON(c.Chart.Schema.Doc)), coqVal(deepCopyVals(c.Vals)), coqVerdict(verdict),
+			coqBool(!c.NoModel && verdict != "panic"))
+		obs.Pairs = []c14Pair{p}
+		if verdict != "ok" {
+			obs.Errored, obs.Schema = true, true
+			obs.Names, obs.Violated = []string{c.Chart.Name}, []string{c.Chart.Name}
+		}
+		return obs
+	}
 	ch, err := loader.LoadFiles(c.Chart.files("", c14Template))
 	if err != nil {
 		obs.Stage = "load-error"
@@ -438,6 +466,7 @@ func (*c14) Oracle(ci, oi any) []hx.Violation {
 	if c.Skip && obs.Schema && c.Op != "lint" && c.Op != "cmd-lint" {
 		vs = append(vs, hx.Violation{Sig: "C14:skip-not-honoured-" + c.Op, What: c.Op + " ran the schema gate although skip-schema-validation was set"})
 	}
+	vs = append(vs, c14SpecOracle(c, obs)...)
 	return vs
 }
 
@@ -457,25 +486,32 @@ func treeHasCRDs(c *vChart) bool {
 
 func (*c14) CoqCase(ci, oi any) string {
 	c, obs := ci.(c14Case), oi.(c14Obs)
-	if obs.Stage != "ran" {
-		return "mkSkip"
+	if obs.Stage != "ran" || c.NoModel {
+		return "mkSkip" // NoModel: held to the drafts' verdict by the oracle only
+	}
+	if c.Op == "schema-step" {
+		return "(mkPairs [" + obs.Pairs[0].dterm + "])"
 	}
 	if strings.HasPrefix(c.Op, "cmd-") {
 		o := fmt.Sprintf("(mkObs %s %s %s %s %s %s)", coqBool(obs.Errored), coqBool(obs.Schema), coqStrList(obs.Names),
 			coqBool(obs.Stored), coqBool(obs.Sent), coqBool(obs.LintVals))
 		return fmt.Sprintf("(mkCase %s %s %s %s %s %s %s %s)", obs.chartTerm, coqVMap(deepCopyVals(c.Vals)), obs.compat, coqOpCmd(c),
-			coqBool(c.Skip), coqBool(c.SkipCRDs), o, "[]")
+			coqBool(c.Skip), coqBool(c.SkipCRDs), o, "[] []")
 	}
 	op := map[string]string{"install": "OpInstall", "install-dry": "OpInstallDry", "template": "OpTemplate",
 		"upgrade": "OpUpgrade", "upgrade-dry": "OpUpgradeDry", "lint": "OpLint"}[c.Op]
-	pairs := make([]string, len(obs.Pairs))
-	for i, p := range obs.Pairs {
-		pairs[i] = p.term
+	pairs, dpairs := []string{}, []string{}
+	for _, p := range obs.Pairs {
+		if p.dterm != "" {
+			dpairs = append(dpairs, p.dterm)
+		} else {
+			pairs = append(pairs, p.term)
+		}
 	}
 	o := fmt.Sprintf("(mkObs %s %s %s %s %s %s)", coqBool(obs.Errored), coqBool(obs.Schema), coqStrList(obs.Names),
 		coqBool(obs.Stored), coqBool(obs.Sent), coqBool(obs.LintVals))
 	return fmt.Sprintf("(mkCase %s %s %s %s %s %s %s %s)", obs.chartTerm, coqVMap(deepCopyVals(c.Vals)), obs.compat, op,
-		coqBool(c.Skip), coqBool(c.SkipCRDs), o, coqList(pairs))
+		coqBool(c.Skip), coqBool(c.SkipCRDs), o, coqList(pairs)+" "+coqList(dpairs))
 }
 
 func (*c14) Class(ci, oi any) string {
@@ -494,7 +530,25 @@ func (*c14) Class(ci, oi any) string {
 	case len(obs.Pairs) == 0:
 		st = "no-schema"
 	}
+	if c.Kind == "spec" {
+		return "spec-" + c.Op + "/" + st
+	}
+	if treeHasDoc(c.Chart) {
+		st += "+doc"
+	}
 	return c.Op + "/" + st
+}
+
+func treeHasDoc(c *vChart) bool {
+	if c.Schema != nil && c.Schema.IsDoc {
+		return true
+	}
+	for _, s := range c.Charts {
+		if treeHasDoc(s) {
+			return true
+		}
+	}
+	return false
 }
 
 func (*c14) NonTrivial(_, oi any) bool {
@@ -595,7 +649,7 @@ func (*c14) Exhaustive(tier string) []any {
 	values := []any{nil, true, false, 0.0, 1.0, 5.0, 6.0, -3.0, "", "a", []any{}, []any{1.0}, []any{0.0, "a"}, []any{[]any{1.0}},
 		map[string]any{}, map[string]any{"x": 1.0}, map[string]any{"x": "s", "y": 2.0}, map[string]any{"y": nil},
 		map[string]any{"x": map[string]any{"z": true}}, map[string]any{"x": map[string]any{"z": 1.0}}, map[string]any{"x": map[string]any{}}}
-	out := c14CmdCases(tier)
+	out := append(c14CmdCases(tier), c14SpecCases(tier)...)
 	for _, sc := range schemas {
 		for _, v := range values {
 			top := &vSchema{Type: "object", Props: map[string]*vSchema{"k": sc}}
@@ -657,6 +711,9 @@ func (g *c14Gen) forVal(v any, depth int) *vSchema {
 	case float64:
 		if wrong {
 			return &vSchema{Type: "boolean"}
+		}
+		if x != float64(int64(x)) || x > 1e9 || x < -1e9 {
+			return &vSchema{Type: "number"} // fractions and huge numbers: the document family (c14_doc.go) has them
 		}
 		s := &vSchema{Type: []string{"integer", "number"}[g.r.Intn(2)]}
 		if g.r.Intn(3) == 0 {
@@ -749,7 +806,11 @@ func (g *c14Gen) schemas(c *vChart, top bool) {
 			for _, k := range kidKeys(c) {
 				sections = append(sections, k.key)
 			}
-			c.Schema = g.forTable(c.Values, 2, sections)
+			if g.r.Intn(2) == 0 {
+				c.Schema = c14RandomDoc(g.r, c.Values, sections) // the larger family, as a document
+			} else {
+				c.Schema = g.forTable(c.Values, 2, sections)
+			}
 		}
 	}
 	for _, s := range c.Charts {
@@ -767,6 +828,17 @@ func (*c14) Generate(r *rand.Rand, _ int) any {
 		// a chart without subcharts: there lint's values.yaml rule and install must agree exactly
 		t = &vChart{Name: "top", Version: "1.0.0"}
 		t.Values = g.vals(t, 0)
+	}
+	if r.Intn(2) == 0 {
+		// values the newer keywords talk about (lists of mixed kinds, nested tables, non-ASCII strings, fractions)
+		tgt := t
+		if len(t.Charts) > 0 && r.Intn(2) == 0 {
+			tgt = t.Charts[r.Intn(len(t.Charts))]
+		}
+		if tgt.Values == nil {
+			tgt.Values = map[string]any{}
+		}
+		tgt.Values["cfg"] = c14RichValue(r, 3)
 	}
 	g.schemas(t, true)
 	var noCRDs func(c *vChart)
